@@ -77,8 +77,9 @@ func ToCatalog(rows []any, ident string, identRight string, joinExpr sqlparser.E
 			if err != nil {
 				return nil, err
 			}
-			buffer.WriteString(fmt.Sprintf("%v", reader))
-			buffer.WriteString("-")
+			// length-prefixed, so that ("p-", "q") and ("p", "-q") get different keys
+			value := fmt.Sprintf("%v", reader)
+			buffer.WriteString(fmt.Sprintf("%d:%s-", len(value), value))
 			mapper[mappedColumns[column]] = reader
 		}
 		hash, err := ToHash(buffer.Bytes())
